@@ -101,6 +101,8 @@ def entries(tier):
         add('ot-parts-%d' % n, mod([ot(units=units, access=acc, descr=descr, ref=ref, augments=aug, index=idx,
                                        defval=dv)]))
         n += 1
+    for i, idx in enumerate([[(0, 0)], [(0, 5)], [(0, 'a'), (0, 0)], [(1, 0)]]):
+        add('ot-index-number-%d' % i, mod([ot(index=idx)]))   # the grammar takes an object name given by number
     for i, syn in enumerate(SYNTAXES):
         add('ot-syntax-%d' % i, mod([ot(syntax=syn)]))
     for i, syn in enumerate(V1_SYNTAXES):
